@@ -1,5 +1,6 @@
 import Chrono.Drv.Util
 import Chrono.Model.Rfc3339
+import Chrono.Model.ParseFrom
 /-!
   Driver ops of C10 (prefix `r3.`):
   * `r3.parse x<text>`  → `ok <yof> <secs> <frac> <off>` (UTC reading + offset) | `err` | `panic`
@@ -9,6 +10,9 @@ import Chrono.Model.Rfc3339
       (`DateTime::to_rfc3339_opts` of the value with that UTC reading and offset)
   * `r3.to <yof> <secs> <frac> <off>` → `DateTime::to_rfc3339`
   * `r3.rt <yof> <secs> <frac> <off> <secform> <use_z>` → write, then parse: `ok …` | `err` | `panic`
+  * `r3.plus <yof> <secs> <frac> <off>` → `write!(s, "{}", dt.format("%+"))` of that `DateTime<FixedOffset>`:
+      `x<text>` | `err` (`fmt::Error`) | `panic`
+  * `r3.plusn <yof> <secs> <frac>` → the same for the `NaiveDateTime` (no offset: `err`)
 -/
 namespace Chrono.Drv.Rfc3339
 open Chrono Chrono.M Chrono.Drv Chrono.M.Format
@@ -26,6 +30,12 @@ def showParse (kind : Bool) (r : Parsed.RP Zoned) : String :=
 def showText (r : Res (List Nat)) : String :=
   match r with
   | .ok t => hexEncode t
+  | .panic => "panic"
+
+def showW (w : Format.W) : String :=
+  match w with
+  | .ok (some b) => hexEncode b
+  | .ok none => "err"
   | .panic => "panic"
 
 def handle (op : String) (args : List String) : Option String :=
@@ -53,6 +63,12 @@ def handle (op : String) (args : List String) : Option String :=
             | .ok t => showParse false (Rfc3339.parse_from_rfc3339 t)
             | .panic => "panic")
          | none => bad)
+      | _ => bad)
+  | "r3.plus", [y, s, f, o] => some (match ints? [y, s, f, o] with
+      | some [y, s, f, o] => showW (ParseFrom.format (.zoned ⟨⟨⟨y⟩, ⟨s, f⟩⟩, o⟩) [37, 43])
+      | _ => bad)
+  | "r3.plusn", [y, s, f] => some (match ints? [y, s, f] with
+      | some [y, s, f] => showW (ParseFrom.format (.naive ⟨⟨y⟩, ⟨s, f⟩⟩) [37, 43])
       | _ => bad)
   | _, _ => none
 
